@@ -163,6 +163,7 @@ def gen_deck(rng):
     next_sid = [1]
     next_cid = [1]
     shared_tr = []
+    poses = {}
     info = {'lattice': False, 'unions': 0, 'impure_unions': 0, 'dups': 0,
             'helper_twin': False, 'depth': depth, 'slivers': 0}
 
@@ -226,7 +227,26 @@ def gen_deck(rng):
                     elif r < 0.75 and cell['trcl'] is None:
                         cell['trcl'] = gen_tr(rng, dck, plain=False)
                     nxt = levels[lvl + 1] if rng.random() < 0.8 else deeper
-                    cell['fill'] = {'u': rng.choice(nxt), 'tr': tr}
+                    univ = rng.choice(nxt)
+                    if tr is not None and poses.get(univ) and rng.random() < 0.5:
+                        # the same universe again with the SAME translation and
+                        # another rotation (or the same rotation elsewhere): the
+                        # cell_transform cache must tell them apart
+                        base = rng.choice(poses[univ])
+                        base = dck['transforms'][base[1]] \
+                            if isinstance(base, tuple) else base
+                        if rng.random() < 0.7:
+                            mat = deckmod.rotation(rng.randrange(3),
+                                                   rng.choice([90, 180, 30, -60]))
+                            tr = deckmod.make_tr(base['O'], mat, star=False)
+                        elif base.get('B') is not None:
+                            tr = dict(base)
+                            shift = [v + rng.choice([0.5, -1.0]) for v in base['O']]
+                            tr['O'] = tuple(shift)
+                            tr['print'] = list(shift) + list(base['print'][3:])
+                    if tr is not None:
+                        poses.setdefault(univ, []).append(tr)
+                    cell['fill'] = {'u': univ, 'tr': tr}
                     cell['mat'], cell['rho'] = 0, None
                 dck['cells'].append(cell)
     # duplicate surfaces: other spellings of a surface under a new number,
